@@ -13,6 +13,7 @@ structure St where
 def parseAtom (s : String) : Option PyVal :=
   match s.toList with
   | 'B' :: r => (ofHex (String.ofList r)).map .bytes
+  | 'Y' :: r => (ofHex (String.ofList r)).map .bytearray
   | ['S'] => some .str
   | ['N'] => some .none
   | ['D'] => some .dict
